@@ -64,6 +64,11 @@ public:
   }
   // TextTools::fromString<T>/to<T> used to return an UNINITIALISED value for an empty string (fixed: fixes/01).  The inputs
   // that take that path are still recognised from the text, now only to prove that they are reached (probes).
+  static bool globMatch(const std::string& p, size_t i, const std::string& n, size_t j) {
+    if (i == p.size()) return j == n.size();
+    if (p[i] == '*') { for (size_t k = j; k <= n.size(); ++k) if (globMatch(p, i + 1, n, k)) return true; return false; }
+    return j < n.size() && p[i] == n[j] && globMatch(p, i + 1, n, j + 1);
+  }
   static bool rangeHazard(const std::string& value) {
     std::string s = value;
     if (s.size() >= 2 && s[0] == '(' && s[s.size() - 1] == ')') s = s.substr(1, s.size() - 2);
@@ -448,7 +453,24 @@ public:
           case 10: acc += ApplicationTools::getVectorParameter<int>(key, lastMap, ',', '-', "", suffix, sOpt, true).size(); break;
           case 11: { auto vv = ApplicationTools::getVectorOfVectorsParameter<double>(key, lastMap, ',', "", suffix, sOpt, warn); acc += vv.size(); for (auto& v : vv) acc += v.size(); break; }
           case 12: { auto mm = ApplicationTools::getMatrixParameter<double>(key, lastMap, ',', "", suffix, sOpt, true); acc += mm.getNumberOfRows() * 31 + mm.getNumberOfColumns(); break; }
-          default: { acc += ApplicationTools::matchingParameters(pat1, lastMap).size(); acc += ApplicationTools::matchingParameters(pat2, lastMap).size(); std::vector<std::string> names = keys; acc += ApplicationTools::matchingParameters(pat3, names).size(); acc += ApplicationTools::parameterExists(key, lastMap) ? 1 : 0; }
+          default: {
+            std::vector<std::string> names = keys;
+            // both overloads against the reference matcher: '*' matches any run of characters, every other character itself
+            for (const std::string& pat : {pat1, pat2, pat3, key, std::string()}) {
+              std::vector<std::string> m1 = ApplicationTools::matchingParameters(pat, lastMap), m2 = ApplicationTools::matchingParameters(pat, names);
+              acc += m1.size() + 3 * m2.size();
+              if (cmp) for (auto& kv : lastMap) {
+                bool want = globMatch(pat, 0, kv.first, 0), have = std::find(m1.begin(), m1.end(), kv.first) != m1.end();
+                if (want != have) ctx.fail("invariant:wildcard-match", std::string("invariant:wildcard-match:glob:") + (pat.find('*') == std::string::npos ? "no-wildcard-pattern" : "wildcard-pattern") + (have ? ":matched" : ":missed"), "matchingParameters('" + printable(pat) + "', map) " + (have ? "returns" : "omits") + " '" + printable(kv.first) + "'");
+              }
+              if (cmp) for (auto& nm : names) {
+                bool want = globMatch(pat, 0, nm, 0), have = std::find(m2.begin(), m2.end(), nm) != m2.end();
+                if (want != have) ctx.fail("invariant:wildcard-match", std::string("invariant:wildcard-match:glob:") + (pat.find('*') == std::string::npos ? "no-wildcard-pattern" : "wildcard-pattern") + (have ? ":matched" : ":missed"), "matchingParameters('" + printable(pat) + "', names) " + (have ? "returns" : "omits") + " '" + printable(nm) + "'");
+              }
+            }
+            if (cmp) ctx.probe("compared:wildcard");
+            acc += ApplicationTools::parameterExists(key, lastMap) ? 1 : 0;
+          }
         }
       });
     }
@@ -616,6 +638,12 @@ public:
         int g = guard("ParameterList::getMatchingParameterNames", [&] { got = pl.getMatchingParameterNames(pat); });
         acc = acc * 31 + got.size();
         if (g == 0) for (const std::string& nm : got) if (!pl.hasParameter(nm)) ctx.fail("invariant:wildcard-match", "invariant:wildcard-match:foreign-name", "getMatchingParameterNames('" + printable(pat) + "') returned a name that is not in the list");
+        // glob semantics for '*' (every other character stands for itself), decided name by name against a reference matcher
+        if (g == 0 && cmp) for (size_t i = 0; i < pl.size(); ++i) {
+          const std::string nm = pl[i].getName(); bool want = globMatch(pat, 0, nm, 0), have = std::find(got.begin(), got.end(), nm) != got.end();
+          if (want != have) ctx.fail("invariant:wildcard-match", std::string("invariant:wildcard-match:glob:") + (pat.find('*') == std::string::npos ? "no-wildcard-pattern" : "wildcard-pattern") + (have ? ":matched" : ":missed"), "getMatchingParameterNames('" + printable(pat) + "') " + (have ? "returns" : "omits") + " '" + printable(nm) + "'");
+        }
+        ctx.probe("compared:wildcard");
         if (g == 0 && &pat == &pats[0] && pat.find('*') == std::string::npos && pl.hasParameter(pat) && got.empty()) ctx.fail("invariant:wildcard-match", "invariant:wildcard-match:own-name", "a parameter's own name '" + printable(pat) + "' used as pattern matches nothing");
       }
       ctx.ev("m=" + std::to_string(acc));
